@@ -80,8 +80,14 @@ def variants(base, profile, seed, cap):
     for f in faults:
         if prog[f["op"]]["op"] in SS.ABANDONABLE and rng.random() < 0.4:
             f["abandon"] = True
-    if len(faults) > cap:
-        faults = rng.sample(faults, cap)
+    # stratified: every I/O fault point is kept (there are a few dozen per base); the line faults, which dominate by number, fill the cap
+    io = [f for f in faults if f["kind"] not in ("cancel", "alloc-fail")]
+    ln = [f for f in faults if f["kind"] in ("cancel", "alloc-fail")]
+    if len(io) > 3 * cap:
+        io = rng.sample(io, 3 * cap)
+    if len(ln) > cap:
+        ln = rng.sample(ln, cap)
+    faults = io + ln
     out = []
     for f in faults:
         sc = copy.deepcopy(base)
